@@ -229,6 +229,8 @@ def run(run, model):
     run.do(common.truth_rule, model, "C18.truth")
     from . import effects
     run.do(effects.no_memo, model, "C18.no-memo")
+    from . import c17
+    run.do(c17.invariant_decorator_table, model, "C18.decorator-lists")
     # what the dunders list is what is enforced: evaluating the listed contracts by hand gives the checker's verdict
     for role, ck in gates.checkers(model).items():
         for kind, depth in (("PRE", 2), ("POST", 1)):
